@@ -10,7 +10,7 @@
    (batchMessages re-checks w.closed under w.mutex — fix of defect F3 — so no partition writer
    is created after Close and a partition is served by one partition writer in every run.) *)
 From Coq Require Import List NArith Bool Arith.
-From KV Require Import Lib.LTS Model.Writer Proofs.WriterStmts Proofs.WriterC07 Proofs.WriterHolds7 Proofs.WriterInFlight.
+From KV Require Import Lib.LTS Model.Writer Proofs.WriterStmts Proofs.WriterC07 Proofs.WriterHolds7 Proofs.WriterInFlight Proofs.WriterHolds.
 Import ListNotations.
 
 (* Every copy of an earlier batch precedes every copy of a later one: if no produce request
@@ -45,6 +45,18 @@ Theorem C07_retries_contiguous :
     (a_tp a = a_tp b -> a_pw a = a_pw b).
 Proof. exact C07_retries_contiguous_proof. Qed.
 Print Assumptions C07_retries_contiguous.
+
+(* batchMessages, under w.mutex, observes w.closed on EVERY call and in EVERY state — also on a
+   Writer that has already written (w.writers non-nil but emptied by Close): a call admitted
+   before Close that reaches batchMessages after it fails with ErrClosedPipe and registers no
+   second partition writer (which would send concurrently with the first one still draining).
+   (On the implementation: the close-race-used family — the fake holds the metadata lookup of
+   a late call on a used Writer until Close has started.) *)
+Theorem C07_late_assign_always_rejected : forall cfg s c cl,
+  closed s = true -> nth_error (s_calls s) c = Some cl -> c_ph cl = CEntered ->
+  step cfg s (Assign c) = Some (ret_call s c cl (RErr EClosed)).
+Proof. exact late_assign_always_rejected. Qed.
+Print Assumptions C07_late_assign_always_rejected.
 
 (* One produce round trip per partition in flight: the sender goroutine starts attempt k+1 of a
    batch only after the round trip of attempt k has RETURNED (an attempt and its answer are one
